@@ -464,3 +464,19 @@ M("C08", "protocol-disconnect-closes-a-lost-transport", "driver/async_udp_protoc
 M("C17", "reminders-none-on-exhausted-retries", "async_spa.py", "            await self._event_handler(GeckoSpaEvent.ERROR_PROTOCOL_RETRY_COUNT_EXCEEDED)\n            return []", "            await self._event_handler(GeckoSpaEvent.ERROR_PROTOCOL_RETRY_COUNT_EXCEEDED)\n            return None", rule="R5")
 M("C18", "time-items-keep-the-default-width", "driver/accessor.py", "        if (\n            self.type == GeckoConstants.SPA_PACK_STRUCT_WORD_TYPE\n            or self.type == GeckoConstants.SPA_PACK_STRUCT_TIME_TYPE\n        ):", "        if self.type == GeckoConstants.SPA_PACK_STRUCT_WORD_TYPE:", rule="R11")
 M("C19", "snapshot-segments-on-the-class", "utils/snapshot.py", "class GeckoSnapshot:\n    def __init__(self):\n        self._lines = []", "class GeckoSnapshot:\n    _status_block_segments = []\n\n    def __init__(self):\n        self._lines = []", expect="silent")
+
+# --------------------------------------------------------------------------- round 15 rules
+M("C01", "received-datagram-rstripped", "driver/async_udp_protocol.py", "        self.queue.put_nowait((data, addr))", "        self.queue.put_nowait((data.rstrip(), addr))", rule="R12")
+M("C01", "received-datagram-copied-twin", "driver/async_udp_protocol.py", "        self.queue.put_nowait((data, addr))", "        self.queue.put_nowait((bytes(data), addr))", expect="silent")
+M("C02", "async-command-counter-wraps-a-step-late", "driver/async_udp_protocol.py", "            if self._sequence_counter_command == 255:", "            if self._sequence_counter_command > 255:", rule="R15")
+M("C05", "receive-buffer-of-one-block", "driver/udp_socket.py", "    _MAX_PACKET_SIZE = 8192", "    _MAX_PACKET_SIZE = 1024", rule="R14")
+M("C05", "receive-buffer-of-two-kilobytes-twin", "driver/udp_socket.py", "    _MAX_PACKET_SIZE = 8192", "    _MAX_PACKET_SIZE = 2048", expect="silent")
+M("C08", "transfer-turns-any-exception-into-failure", "driver/async_spastruct.py", "    async def get(self, protocol, create_func, retry_count=10):\n", "    async def get(self, protocol, create_func, retry_count=10):\n        try:\n            return await self._get(protocol, create_func, retry_count)\n        except:  # noqa\n            return False\n\n    async def _get(self, protocol, create_func, retry_count):\n", rule="I13")
+M("C09", "ping-timeout-a-quarter-of-the-period", "driver/protocol/ping.py", "            content=PING_VERB, timeout=GeckoConfig.PROTOCOL_TIMEOUT_IN_SECONDS, **kwargs", "            content=PING_VERB, timeout=GeckoConfig.PING_FREQUENCY_IN_SECONDS // 4, **kwargs", rule="R9")
+M("C09", "ping-timeout-capped-by-the-period-twin", "driver/protocol/ping.py", "            content=PING_VERB, timeout=GeckoConfig.PROTOCOL_TIMEOUT_IN_SECONDS, **kwargs", "            content=PING_VERB, timeout=max(1, min(GeckoConfig.PROTOCOL_TIMEOUT_IN_SECONDS, GeckoConfig.PING_FREQUENCY_IN_SECONDS * 2)), **kwargs", expect="silent")
+M("C10", "request-lock-swallows-what-leaves-it", "driver/async_udp_protocol.py", "        return await super().__aexit__(exc_type, exc, tb)", "        await super().__aexit__(exc_type, exc, tb)\n        return exc_type is not None", rule="R4")
+M("C10", "request-lock-returns-false-twin", "driver/async_udp_protocol.py", "        return await super().__aexit__(exc_type, exc, tb)", "        await super().__aexit__(exc_type, exc, tb)\n        return False", expect="silent")
+M("C11", "pump-modes-through-a-speed-table", "automation/pump.py", "        return self._user_demand[\"options\"]", "        return [o for o in self._user_demand[\"options\"] if {\"OFF\": 0, \"LO\": 1, \"HI\": 2}[o] >= 0]", rule="R12")
+M("C12", "scan-skips-the-heater-output", "automation/async_facade.py", "            for output in self._spa.struct.all_outputs\n        }", "            for output in self._spa.struct.all_outputs\n            if not output.startswith(\"OutHtr\")\n        }", rule="R1")
+M("C15", "protocol-default-queue-object", "driver/async_udp_protocol.py", "    def __init__(self, on_connection_lost, destination) -> None:\n        self.transport = None\n        self._on_connection_lost = on_connection_lost\n        self._destination = destination\n\n        self._sequence_counter_protocol = 0\n        self._sequence_counter_command = 191\n        self._queue = AsyncPeekableQueue()", "    def __init__(self, on_connection_lost, destination, queue=AsyncPeekableQueue()) -> None:\n        self.transport = None\n        self._on_connection_lost = on_connection_lost\n        self._destination = destination\n\n        self._sequence_counter_protocol = 0\n        self._sequence_counter_command = 191\n        self._queue = queue", rule="R11")
+M("C20", "channel-step-budget-from-the-timeout", "driver/protocol/getchannel.py", "            retry_count=GeckoConfig.PROTOCOL_RETRY_COUNT,", "            retry_count=GeckoConfig.PROTOCOL_TIMEOUT_IN_SECONDS,", rule="R5")
